@@ -185,9 +185,11 @@ func cmdCheck(args []string) int {
 	}
 	var works []*work
 	engineErrs := 0
+	var engineErrTexts []string
 	for _, r := range results {
 		if r.Err != "" {
 			fmt.Fprintln(os.Stderr, "ERROR:", r.Err)
+			engineErrTexts = append(engineErrTexts, r.Err)
 			engineErrs++
 			continue
 		}
@@ -354,6 +356,14 @@ func cmdCheck(args []string) int {
 		violations++
 	}
 	if engineErrs > 0 {
+		// a contract that no longer fits its function (a clause names a variable, call site or
+		// loop that is gone) decides nothing: reported per function, never silently skipped
+		for _, t := range engineErrTexts {
+			if len(t) > 300 {
+				t = t[:300]
+			}
+			outLines = append(outLines, fmt.Sprintf("VIOLATION property=%s replay=none obligation=shape:contract-fits-code %s no-failing-input-found", *prop, strings.ReplaceAll(t, "\n", " ")))
+		}
 		outLines = append(outLines, fmt.Sprintf("VIOLATION property=%s replay=none engine/contract errors: %d (see stderr) no-failing-input-found", *prop, engineErrs))
 		violations++
 	}
